@@ -66,7 +66,7 @@ fn ascii_str<const N: usize>(buf: &mut [u8; N]) -> &str {
     unsafe { core::str::from_utf8_unchecked(&buf[..len]) }
 }
 
-// @ob tier=thorough timeout=5400 mem=14
+// @ob tier=extra timeout=7200 mem=14
 // @desc format-string iterator, one step from a fresh iterator over ANY ASCII string (strict and lenient): next() never panics, and whenever it returns an item the pair (unconsumed bytes, queued items) has strictly decreased lexicographically -- so iteration ends after at most one item per input byte plus the longest composite expansion (finding F3 on the original tree: strict mode re-read "%Q" forever)
 // @bounds format strings up to 5 bytes, all ASCII byte values (unwind 8); the step reads at most 4 bytes ahead, longer strings are covered by the inductive argument on suffixes
 // @funcs StrftimeItems::{new, new_lenient, next, parse_next_item, error}, hook StrftimeItems::verif_measure
@@ -98,7 +98,7 @@ fn c15_strftime_step_ascii() {
     }
 }
 
-// @ob tier=thorough timeout=5400 mem=14
+// @ob tier=extra timeout=7200 mem=14
 // @desc same step obligation with a multi-byte scalar: a 2-byte, 3-byte or 4-byte UTF-8 character at any position of an otherwise ASCII string (slicing must stay on character boundaries: no panic)
 // @bounds strings of one multi-byte scalar (U+00E9, U+2212, U+1F63D) plus up to 3 ASCII bytes before/after in total (unwind 9)
 // @funcs StrftimeItems::{new, new_lenient, next, parse_next_item, error}
@@ -212,7 +212,7 @@ fn c15_round_range_ends() {
     kani::cover!(dt.offset().local_minus_utc() > 0);
 }
 
-// @ob tier=thorough timeout=5400 mem=16
+// @ob tier=extra timeout=7200 mem=16
 // @desc the RFC 3339 renderers at both ends of the range: to_rfc3339 and to_rfc3339_opts (every precision, with and without Z) return normally -- never panic -- also when the wall-clock reading lies in the headroom day beyond MIN/MAX (finding F7 on the original tree: to_rfc3339_opts called naive_local())
 // @bounds the first and the last representable UTC second x all whole-hour offsets in (-24h, 24h) x 5 precisions x use_z; text goes to a String (Kani's alloc model)
 // @funcs DateTime::{to_rfc3339, to_rfc3339_opts}, write_rfc3339, OffsetFormat::format
